@@ -30,6 +30,27 @@ CLAIMED = {
  "C20": ("vecx", "explicit-state BFS over vector histories; every byte range fetched during the read battery (access tap) is checked against the owning region's current length",
          "The cfg(anydb_verif) access tap reports every mmap/file read made on behalf of a vector (Reader reads, raw pointer reads, native-layout memcpy, VecReader, zero-copy refs, both IO sources). During the C08 battery in every reached state (including states right after a rollback, where the logical length exceeds the on-disk length, and their read-only clones) each reported range must lie inside one of the vector's own regions and below its current length.",
          "Completeness of the tap (14 sites) is by inspection of the read paths. Recorded defect F5 is printed as KNOWN-FINDING.", "5/C20"),
+ "C06": ("eagerx", "exhaustive enumeration of source histories x starting indices x batch limits x intermediate write/re-import per compute method, each compared step by step with a from-scratch run on the real EagerVec",
+         "For 64 catalogue entries (54 of the 64 public compute_* methods, several with more than one window) every source history of 2 (thorough: 3) steps over {append 1, append 2, truncate and regrow 1 or 2, no change}, every starting-index choice in {0, m/2, m} with m = min(first changed source index, first changed output index, previous length), batch limits {production, 1, 2, 3 elements} (through the cfg(anydb_verif) MAX_CACHE_SIZE cell) and {nothing, write, re-import, redundant second call} between calls is executed; after every call the stored result must equal the same method run from scratch.",
+         "Methods not in the catalogue are listed in the evidence (lossy-resume float statistics, index-swapping transforms, filtered index-group variants). Float outputs: differences below 1e-6 relative are counted as rounding, not judged. Output format BytesVec; sources in-memory.", "5/C06"),
+ "C10": ("rawx", "explicit-state BFS over region histories with a Reader held across operations (reader clause on one thread)",
+         "Reader clause only, without concurrency: all histories (bounded depth) of create / append / remove / flush / compact with a Reader opened at every possible point and kept; after every step the bytes it returns below its snapshot length must be bytes the region has held since the reader was created. The multi-thread isolation clause (schedules) is not decided by this check yet.",
+         "File pre-sized so that no growth happens while the reader is held (the documented same-thread growth deadlock is excluded). Recorded defect F13 printed as KNOWN-FINDING. Schedule exploration pending (chessx).", "5/C10"),
+ "C12": ("rawx", "explicit-state BFS over allocation histories containing compact(), with the punch events (fd-keyed tap) checked against the layout",
+         "Sequential part: in every state reached (bounded depth; also from a prefilled state of four flushed regions) compact() must leave every live region's bytes, length, start and reserve and the file length unchanged, and every hole-punch it issues (reported by the cfg(anydb_verif) tap) must lie inside the unused tail of a reservation or inside a promoted free extent. Crash points inside compact() and interleavings with writers are not decided by this check yet.",
+         "Crash-image and schedule parts pending (crashx, chessx).", "5/C12"),
+ "C14": ("importx", "exhaustive enumeration of the import configuration cross product on the real code",
+         "All 10 925 combinations of stored format x requested format x stored version x requested version x creating entry point x reopening entry point x contents (empty, 3 values, two pages, raw with a deleted slot) x same process / database reopened, plus blocked-removal variants (a handle on the data region held during a forced re-import). Oracle as the statement: matching => contents back through either entry point; mismatch => plain import fails with a version/format error and regions and bytes are untouched, forced import returns a vector that is empty and behaves as empty.",
+         "Lock and I/O errors are not injected. Recorded defect F2 (entry points disagree about the stored version) covers all mixed-entry-point cases and is printed as KNOWN-FINDING.", "5/C14"),
+ "C15": ("lazyx", "exhaustive enumeration of source contents, window-start / first-index mappings, ranges and index lists for every lazy vector type, compared with the defining formula",
+         "LazyVecFrom1/2/3 (index-using, non-commutative functions; unequal source lengths; sources that grow after construction), LazyDeltaVec with DeltaSub/Avg/Change/Rate over all monotone window-start sequences (including empty windows and mappings shorter/longer than the source) and LazyAggVec<Sparse> over all monotone first-index mappings (including past the end): for each, every read API x all (from,to) over 0..len+1 and usize::MAX x all subsets of six indices x cursor paths, compared with the formula evaluated on plain Vecs.",
+         "Source length <= 3 (quick) / 5 (thorough); values from {0,2,5} and position patterns; in-memory sources so that only the lazy layer is under test.", "5/C15"),
+ "C17": ("codecx+vecx", "exhaustive enumeration of field boundary cross products, truncations and byte / length-field mutations of every on-disk codec, with a counting allocator",
+         "RegionMetadata: 11^3 start/len/reserved values x 12 names decoded and judged against independently written validity rules and round trip; all truncations, single-byte replacements (stride 97 quick / every offset thorough) and length-field overwrites; encoder side compared with an independent encoding of real regions. Regions file: every combination of up to 3 (thorough 4) slots each valid / zero / one of 7 garbage classes must open and expose exactly the valid ones. Vector header (all 256 format bytes x version/stamp boundaries), page-index entries, every numeric type and byte-array width, value decoding for every (byte length, claimed count) pair of a grid with peak allocation measured, compressed pages truncated and mutated. Change records: the single-file fault enumeration of the vecx engine.",
+         "Allocation bound 4 x input + 64 KiB (+1 MiB codec state for decompress). A process abort is isolated per operation and reported.", "5/C17"),
+ "C19": ("versionx", "exhaustive enumeration of compute-call histories with varying presented versions and starting indices on a real EagerVec",
+         "Per compute family (compute_to, transform, transform2, add, cumulative, rolling sum) all histories up to depth 4 (thorough 5) over {compute with every presented version combination and starting index in {0, mid, len, len+1}, source growth, write, re-import}. Oracle: version changed => stored result equals a from-scratch result and the closure ran for every index from 0; unchanged => no index below min(start, stored length) re-evaluated or altered; header's computed version equals the last presented combination after every step including re-import.",
+         "Two different version combinations with the same sum are indistinguishable to the library (the statement speaks of the combined version) and are not judged. Sources in-memory.", "5/C19"),
  "C02": ("rawx", "explicit-state BFS over operation histories of the real rawdb with extent/partition invariants and the placement rule checked in every reached state",
          "Same exploration as C01 plus initial file sizes (open_with_min_len, set_min_regions); in every reached state the live extents, free extents, deferred extents and reservations are swept for alignment, disjointness, exact partition of the allocated area, merged neighbours and index consistency, and each placement is checked against the free extents that existed before it.",
          "Bounded as C01. Invariants read internal layout state through cfg(anydb_verif) accessors.", "5/C02"),
@@ -67,6 +88,11 @@ def main():
       },
       "engines": [
         {"name":"rawx","path":"harness/mc/src/rawx.rs","serves_properties":["C01","C02","C10","C12","C13"],"kind_free_text":"explicit-state BFS over region-operation histories on the real rawdb (worker processes re-execute histories; parent owns frontier and seen-set)"},
+        {"name":"importx","path":"harness/mc/src/importx.rs","serves_properties":["C14"],"kind_free_text":"complete configuration cross product"},
+        {"name":"lazyx","path":"harness/mc/src/lazyx.rs","serves_properties":["C15"],"kind_free_text":"exhaustive small-scope enumeration of lazy vectors against formulas"},
+        {"name":"codecx","path":"harness/mc/src/codecx.rs","serves_properties":["C17"],"kind_free_text":"boundary / truncation / mutation enumeration of codecs with counting allocator"},
+        {"name":"versionx","path":"harness/mc/src/versionx.rs","serves_properties":["C19"],"kind_free_text":"DFS over compute-call histories"},
+        {"name":"eagerx","path":"harness/mc/src/eagerx.rs","serves_properties":["C06"],"kind_free_text":"per-method enumeration of source histories, differential against from-scratch"},
         {"name":"vecx","path":"harness/mc/src/vecx.rs","serves_properties":["C03","C04","C07","C08","C13","C16","C20"],"kind_free_text":"explicit-state BFS over vector-operation histories on every real vecdb format, with read battery (vecreads.rs), access-bound tap and change-record fault enumeration"},
       ],
       "checks": checks,
